@@ -18,7 +18,6 @@ var defaultSummarised = []string{
 	modPath + "/internal/authz.matchesCallbackPath",
 	modPath + "/internal/authz.matchesLogoutPath",
 	modPath + "/internal/authz.getSessionIDFromCookie",
-	modPath + "/internal/authz.getCookieName",
 	modPath + "/internal/authz.isValidIDPNewTokensResponse",
 	modPath + "/internal/authz.isValidIDPRefreshTokenResponse",
 	modPath + "/internal/authz.encodeHeaderValue",
@@ -46,6 +45,24 @@ func sameValue(a, b Value) bool {
 	return shallowEqual(a, b)
 }
 
+// strShape: strings merge only when their rope structure is identical (same constants in the
+// same places), so that merging never destroys the structure the string library exploits.
+func strShape(s *Str) string {
+	var sb strings.Builder
+	sb.WriteString("S[")
+	for _, p := range s.p {
+		if p.isConst() {
+			sb.WriteString("c:")
+			sb.WriteString(p.c)
+			sb.WriteByte('|')
+		} else {
+			sb.WriteString("v|")
+		}
+	}
+	sb.WriteString("]")
+	return sb.String()
+}
+
 func shapeKey(v Value) string {
 	switch x := v.(type) {
 	case nil:
@@ -53,7 +70,7 @@ func shapeKey(v Value) string {
 	case *Term:
 		return "T" + x.sort.String()
 	case *Str:
-		return "S"
+		return strShape(x)
 	case TupleV:
 		var p []string
 		for _, c := range x {
@@ -97,28 +114,56 @@ func (e *Engine) mergeInto(st *State, vals []Value, eqs [][]*Term) Value {
 		return r
 	case *Str:
 		all := true
-		cap := 0
 		for _, v := range vals {
-			s := v.(*Str)
-			if s != x {
-				if c1, ok1 := s.Const(); !ok1 {
-					all = false
-				} else if c0, ok0 := x.Const(); !ok0 || c0 != c1 {
-					all = false
-				}
-			}
-			if c := sCap(s); c > cap {
-				cap = c
+			if v.(*Str) != x {
+				all = false
 			}
 		}
 		if all {
 			return x
 		}
-		r := st.newSymStr("sum", cap)
-		for i, v := range vals {
-			eqs[i] = append(eqs[i], st.sEq(r, v.(*Str)))
+		// identical rope structure (guaranteed by strShape): merge view pieces one by one
+		out := make([]Piece, len(x.p))
+		for k, p0 := range x.p {
+			if p0.isConst() {
+				out[k] = p0
+				continue
+			}
+			same := true
+			cap := 0
+			var alpha *alphabet
+			alphaOK := true
+			for _, v := range vals {
+				pk := v.(*Str).p[k]
+				if pk.arr != p0.arr || pk.off != p0.off || pk.n != p0.n {
+					same = false
+				}
+				if pk.cap > cap {
+					cap = pk.cap
+				}
+				if pk.alpha == nil {
+					alphaOK = false
+				}
+			}
+			if same {
+				out[k] = p0
+				continue
+			}
+			if alphaOK {
+				var ps []Piece
+				for _, v := range vals {
+					ps = append(ps, v.(*Str).p[k])
+				}
+				alpha = unionAlpha(ps)
+			}
+			r := st.newSymStr("sum", cap)
+			r.p[0].alpha = alpha
+			for i, v := range vals {
+				eqs[i] = append(eqs[i], st.sEq(r, &Str{p: []Piece{v.(*Str).p[k]}}))
+			}
+			out[k] = r.p[0]
 		}
-		return r
+		return &Str{p: out}
 	case TupleV:
 		out := make(TupleV, len(x))
 		for k := range x {
